@@ -16,6 +16,6 @@ hprop.install(globals(), hprop.HistoryProperty(
           "(enqueue time, id). non-trivial = a queue of >=3 for one plug AND >=1 grant from the queue; distinct = sha1(world, op log)"),
     assumptions=hprop.COMMON_ASSUMPTIONS + ["a grant caused by an instruction naming the granted vehicle in that step is the controller's choice, not the queue's, and is not judged"],
     quick=(16, 200, 45), thorough=(16, 2000, 70),
-    instr_bias={"rush": True, "kinds": [2, 2, 2, 2, 2, 2, 2, 3, 0, 0, 5], "vclasses": [0, 1, 1, 1, 4, 4, 5], "tclasses": [0, 0, 3, 3, 1]},
+    instr_bias={"rush": True, "throttle": True, "kinds": [2, 2, 2, 2, 2, 2, 2, 3, 0, 0, 5], "vclasses": [0, 1, 1, 1, 4, 4, 5], "tclasses": [0, 0, 3, 3, 1]},
 ))
 FLOORS = {"quick": {"queue_grants": 30, "flag:equal_time_tie": 3}, "thorough": {"queue_grants": 300}}
